@@ -179,6 +179,8 @@ func ChildMain() {
 		for _, o := range asList(req["ops"]) {
 			if om, ok := o.(M); ok && asStr(req["stream"]) == "parse" {
 				l = append(l, ExecParse(om))
+			} else if ok && asStr(req["stream"]) == "ser" {
+				l = append(l, ExecSer(om))
 			} else {
 				l = append(l, "unknown-op")
 			}
@@ -621,6 +623,12 @@ func crashExplore(op M) any {
 			} else if d4, err := fs.Retrieve(id, nil); err != nil || !proto.Equal(d4, follow) {
 				// whatever the crash left behind, stores under other identifiers leave a complete entry alone
 				violations = append(violations, fmt.Sprintf("crash at %s, a complete store of the same identifier, then a store under another identifier: retrieve returns %v (error %v) instead of the stored document", what, docView(d4, nil), err))
+			}
+			// and the restarted application stores the very document again whose store was interrupted
+			if err := fs.Store(newDoc, nil); err != nil {
+				violations = append(violations, fmt.Sprintf("crash at %s: storing the same document again later fails: %v", what, err))
+			} else if d5, err := fs.Retrieve(id, nil); err != nil || !proto.Equal(d5, newDoc) {
+				violations = append(violations, fmt.Sprintf("crash at %s, then the same document stored again without interruption: retrieve returns %v (error %v) instead of it", what, docView(d5, nil), err))
 			}
 		}
 	}
